@@ -14,6 +14,7 @@ CORE = schema.CORE
 SPEC = '''
 def uses_wf():
     return (forall(lambda v=Value: nonnull(v._uses) and allocated(v._uses)) and
+            forall(lambda v=Value, u=Usage: implies(u in box(v._uses), nonnull(u.node) and allocated(u.node))) and
             forall(lambda v=Value, w=Value: implies(v is not w, v._uses is not w._uses)))
 
 def I1():
@@ -41,6 +42,9 @@ def build(eng, prop):
     eng.add_target(Target("Node.replace_input_with", mod=CORE, qual="Node.replace_input_with", self_cls="Node",
         params=dict(index=INT, value=TRef("Value")), requires=["uses_wf()", "I1()"],
         ensures=["uses_wf()", "I1()", "0 <= index and index < len(self._inputs)", "len(self._inputs) == old(len(self._inputs))", "self._inputs[index] is value",
+                 # the usage (self, index) now belongs to exactly the new value; only that usage is added / removed anywhere
+                 "forall(lambda v=Value: (Usage(self, index) in box(v._uses)) == (v is value))", 
+                 "forall(lambda v=Value, u=Usage: implies(not (u.node is self and u.idx == index), (u in box(v._uses)) == old(u in box(v._uses))))", 
                  "forall(lambda j=int: implies(0 <= j and j < len(self._inputs) and j != index, self._inputs[j] is old(self._inputs[j])))",
                  # no other node's inputs change
                  "forall(lambda n=Node: implies(n is not self, n._inputs == old(n._inputs)))"],
@@ -49,6 +53,8 @@ def build(eng, prop):
     rc = FnDecl(f"{CORE}.Node.replace_input_with", "contract", CORE, "Node.replace_input_with",
         requires=["uses_wf()", "I1()"],
         ensures=["uses_wf()", "I1()", "0 <= index and index < len(self._inputs)", "len(self._inputs) == old(len(self._inputs))", "self._inputs[index] is value",
+                 "forall(lambda v=Value: (Usage(self, index) in box(v._uses)) == (v is value))", 
+                 "forall(lambda v=Value, u=Usage: implies(not (u.node is self and u.idx == index), (u in box(v._uses)) == old(u in box(v._uses))))", 
                  "forall(lambda j=int: implies(0 <= j and j < len(self._inputs) and j != index, self._inputs[j] is old(self._inputs[j])))",
                  "forall(lambda n=Node: implies(n is not self, n._inputs == old(n._inputs)))"],
         raises={"ValueError": [unchanged, "index < 0 or index >= len(self._inputs)"]}, modifies=mod)
@@ -66,3 +72,28 @@ def build(eng, prop):
                  "forall(lambda j=int: implies(0 <= j and j < new_size and j < old(len(self._inputs)), self._inputs[j] is old(self._inputs[j])))",
                  "forall(lambda j=int: implies(old(len(self._inputs)) <= j and j < new_size, self._inputs[j] is None))"],
         raises={"ValueError": exc}, modifies=mod + ["$alloc"]))
+    # Value.replace_all_uses_with (the rewiring primitive of the passes), for a value that is not a graph output: afterwards
+    # every former use reads the replacement, the value itself has no uses left, nothing else moved - and I1 still holds
+    USAGE = eng.classes["Usage"].record
+    from pyvc.types import BOOL, TSeq
+    eng.add_target(Target("Value.replace_all_uses_with", mod=CORE, qual="Value.replace_all_uses_with", self_cls="Value", setup=setup,
+        params=dict(replacement=TRef("Value"), replace_graph_outputs=BOOL),
+        requires=["uses_wf()", "I1()", "not self._is_graph_output", "nonnull(replacement)", "replacement is not self"],
+        loops={1: LoopSpec(invariant=[
+                    "uses_wf()", "I1()",
+                    # uses not yet visited are still uses of self; visited ones now read the replacement
+                    "forall(lambda j=int: implies(k <= j and j < len(it), it[j] in box(self._uses)))",
+                    "forall(lambda n=Node, i=int: implies(0 <= i and i < len(n._inputs) and old(n._inputs[i]) is self and not (Usage(n, i) in box(self._uses)), "
+                    "n._inputs[i] is replacement))",
+                    "forall(lambda u=Usage: implies(u in box(self._uses), k <= keypos(it, u) and keypos(it, u) < len(it) and it[keypos(it, u)] == u))",
+                    "forall(lambda j=int: implies(0 <= j and j < len(it), keypos(it, it[j]) == j))",
+                    "forall(lambda n=Node: len(n._inputs) == old(len(n._inputs)))",
+                    "forall(lambda n=Node, i=int: implies(0 <= i and i < len(n._inputs) and old(n._inputs[i]) is not self, n._inputs[i] is old(n._inputs[i])))"],
+                  modifies=mod)},
+        ensures=["uses_wf()", "I1()",
+                 "forall(lambda n=Node, i=int: implies(0 <= i and i < len(n._inputs), n._inputs[i] is not self))",
+                 "forall(lambda n=Node, i=int: implies(0 <= i and i < old(len(n._inputs)) and old(n._inputs[i]) is self, n._inputs[i] is replacement))",
+                 "forall(lambda n=Node, i=int: implies(0 <= i and i < old(len(n._inputs)) and old(n._inputs[i]) is not self, n._inputs[i] is old(n._inputs[i])))"],
+        raises={"ValueError": exc}, modifies=mod + ["$alloc"],
+        dead=["graph = self.graph", "assert graph is not None", "if not replace_graph_outputs", "raise ValueError", "for i, output in enumerate(graph.outputs)",
+              "if output is self", "graph.outputs[i] = replacement"]))
